@@ -810,3 +810,67 @@ func init() {
 		},
 	})
 }
+
+func init() {
+	register(&Rule{
+		ID: "metriclog.scan-stops-only-when-told", Props: []string{"C17"}, Floor: 2,
+		Doc: "the reader's scan over the files after the starting one (ReadMetrics, ReadMetricsByEndTime) leaves its loop only because the file list is exhausted, a limit passed in by the caller is reached, the per-file reader reported an error, or the per-file reader said not to continue (its shouldContinue result): no other condition - in particular nothing derived from how many items a file contributed after the resource filter - ends the scan, or items of later retained files inside the range are silently dropped",
+		Run: func(c *Ctx) {
+			for _, fn := range []string{mlPkg + ".(*defaultMetricLogReader).ReadMetrics", mlPkg + ".(*defaultMetricLogReader).ReadMetricsByEndTime"} {
+				f := c.P.Func(fn)
+				if f == nil {
+					c.AnchorLost(fn)
+					continue
+				}
+				loop := loopBlocks(f)
+				n, bad := 0, ""
+				for _, b := range f.Blocks {
+					if !loop[b] || len(b.Instrs) == 0 {
+						continue
+					}
+					ifi, ok := b.Instrs[len(b.Instrs)-1].(*ssa.If)
+					if !ok {
+						continue
+					}
+					leaves := !loop[b.Succs[0]] || !loop[b.Succs[1]]
+					if !leaves {
+						continue
+					}
+					n++
+					cond, _ := stripNot(ifi.Cond, true)
+					okCond := false
+					switch x := cond.(type) {
+					case *ssa.Extract:
+						if call, isCall := x.Tuple.(*ssa.Call); isCall && call.Call.StaticCallee() != nil && strings.HasPrefix(call.Call.StaticCallee().Name(), "readMetricsInOneFile") && x.Index == 1 {
+							okCond = true // shouldContinue
+						}
+					case *ssa.BinOp:
+						p := accessPath(x)
+						if strings.Contains(p, "builtin len({[]string})") {
+							okCond = true // file list exhausted
+						}
+						if _, isP := stripConv(x.X).(*ssa.Parameter); isP {
+							okCond = true // a limit given by the caller (max lines)
+						}
+						if _, isP := stripConv(x.Y).(*ssa.Parameter); isP {
+							okCond = true
+						}
+						if isNilConst(x.X) || isNilConst(x.Y) {
+							other := x.X
+							if isNilConst(x.X) {
+								other = x.Y
+							}
+							if ex, isEx := other.(*ssa.Extract); isEx && isErrorType(ex.Type()) {
+								okCond = true // error of the per-file reader
+							}
+						}
+					}
+					if !okCond {
+						bad = c.P.Pos(ifi.Pos()) + ": " + accessPath(ifi.Cond)
+					}
+				}
+				c.Check(n > 0 && bad == "", fnKey(f)+" / loop-exits", f.Pos(), "%d loop exit(s), each on list exhausted / reader error / shouldContinue (offending: %q)", n, bad)
+			}
+		},
+	})
+}
